@@ -332,7 +332,31 @@ theorem keyProd_map (look : Nat → R) (f : Nat → Nat) (k : Key) :
   | nil => rfl
   | cons a k ih => simp [ih]
 
-theorem sortNat_perm (l : List Nat) : (sortNat l).Perm l := List.mergeSort_perm _ _
+theorem insertBy_perm {α : Type} (le : α → α → Bool) (x : α) (l : List α) :
+    (insertBy le x l).Perm (x :: l) := by
+  induction l with
+  | nil => exact List.Perm.refl _
+  | cons y ys ih =>
+    unfold insertBy
+    split
+    · exact (List.Perm.cons y ih).trans (List.Perm.swap x y ys)
+    · exact List.Perm.refl _
+
+theorem isort_perm {α : Type} (le : α → α → Bool) (l : List α) : (isort le l).Perm l := by
+  unfold isort
+  suffices h : ∀ (l acc : List α), (l.foldl (fun acc x => insertBy le x acc) acc).Perm (l ++ acc) by
+    simpa using h l []
+  intro l
+  induction l with
+  | nil => intro acc; exact List.Perm.refl _
+  | cons x l ih =>
+    intro acc
+    simp only [List.foldl_cons, List.cons_append]
+    refine (ih _).trans ?_
+    refine (List.Perm.append_left l (insertBy_perm le x acc)).trans ?_
+    exact List.perm_middle
+
+theorem sortNat_perm (l : List Nat) : (sortNat l).Perm l := isort_perm _ _
 
 end
 end Ffcx.IR
